@@ -27,6 +27,8 @@ structure LeafC (I : State → Prop) : Prop extends LeafW I where
   setStopping : Pres I setStopping
   setRestarting : Pres I setRestarting
   setLoopStop : ∀ b, Pres I (setLoopStop b)
+  setSocketEvent : ∀ b, Pres I (setSocketEvent b)
+  setSockReady : ∀ b, Pres I (setSockReady b)
   clearDone : Pres I clearDone
   unregister : ∀ u, Pres I (unregisterWatcher u)
   registerNew : ∀ w, w.pids = [] → Pres I (registerNew w)    -- a new watcher object lists no process
@@ -60,7 +62,7 @@ attribute [aesop safe apply (rule_sets := [NoClose])] Pres.pure Pres.getS Pres.g
 attribute [aesop safe apply (rule_sets := [NoClose])] Pres.bind Pres.ite Pres.for_in
 attribute [aesop safe apply (rule_sets := [NoClose])] LeafK.emit LeafW.popPid LeafW.bumpHook LeafW.setObjStopping LeafW.setRc
   LeafW.markBlocked LeafW.emitEv
-attribute [aesop safe apply (rule_sets := [NoClose])] LeafC.setStatus LeafC.trySetNp LeafC.spawnAdopt LeafC.setWOpt LeafC.freshId LeafC.pushFrame LeafC.removeFrame LeafC.setFrameK LeafC.armFrame LeafC.pushSleeper LeafC.armTop LeafC.setStopping LeafC.setRestarting LeafC.setLoopStop LeafC.clearDone LeafC.unregister LeafC.fireSleeper LeafC.enqueueResume LeafC.enqueueCallback
+attribute [aesop safe apply (rule_sets := [NoClose])] LeafC.setStatus LeafC.trySetNp LeafC.spawnAdopt LeafC.setWOpt LeafC.freshId LeafC.pushFrame LeafC.removeFrame LeafC.setFrameK LeafC.armFrame LeafC.pushSleeper LeafC.armTop LeafC.setStopping LeafC.setRestarting LeafC.setLoopStop LeafC.setSocketEvent LeafC.setSockReady LeafC.clearDone LeafC.unregister LeafC.fireSleeper LeafC.enqueueResume LeafC.enqueueCallback
 attribute [aesop safe apply (rule_sets := [NoClose])] SpecCoreC.deliverTop SpecCoreC.syncSetOpt SpecCoreC.syncAdd
 attribute [aesop safe apply (rule_sets := [NoClose])] LeafW.toLeafK LeafC.toLeafW SpecCoreC.toLeafC SpecC.toSpecCoreC
 attribute [aesop safe apply (rule_sets := [NoClose])] runK_kill runK_waitpid kKill_pres kWaitpid_pres kStateOf_pres kChildren_pres kSleep_pres notify_pres callHook_pres procStatus_pres isAlive_pres objStop_pres sendSignal_pres sendSignalChild_pres sendSignalProcess_pres activeProcs_pres setBlocked_pres reapWait_pres reapTail_pres reapProcess_pres reapProcesses_pres usedWids_pres arbReapLoop_pres registered_pres iterWatchers_pres arbReapProcesses_pres
@@ -155,6 +157,9 @@ theorem stopAfterKill_presC (S : SpecCoreC I) (rec : Rec) (hrec : ∀ t, Pres I 
 theorem spawnProcess_presC (S : SpecCoreC I) (rec : Rec) (hrec : ∀ t, Pres I (rec t)) (wuid : Nat) : Pres I (spawnProcess rec wuid) := by
   have L := S.toLeafC
   unfold spawnProcess; aesop (add safe apply hrec) (rule_sets := [NoClose]) (config := { terminal := true, useDefaultSimpSet := false, useSimpAll := false, maxRuleApplications := 3000 })
+@[aesop safe apply (rule_sets := [NoClose])]
+theorem pendingSocketEvent_presC (L : LeafC I) (u : Nat) : Pres I (pendingSocketEvent u) := by
+  unfold pendingSocketEvent; presc
 @[aesop safe apply (rule_sets := [NoClose])]
 theorem spawnLoop_presC (S : SpecCoreC I) (rec : Rec) (hrec : ∀ t, Pres I (rec t)) (wuid rem : Nat) (wt : Waiter) : Pres I (spawnLoop rec wuid rem wt) := by
   have L := S.toLeafC
@@ -251,6 +256,11 @@ theorem manageWatchers_presC (S : SpecCoreC I) (rec : Rec) (hrec : ∀ t, Pres I
 theorem rmWatcher_presC (S : SpecCoreC I) (rec : Rec) (hrec : ∀ t, Pres I (rec t)) (uid : Nat) (ns : Bool) (wt : Waiter) : Pres I (rmWatcher rec uid ns wt) := by
   have L := S.toLeafC
   unfold rmWatcher; aesop (add safe apply hrec) (rule_sets := [NoClose]) (config := { terminal := true, useDefaultSimpSet := false, useSimpAll := false, maxRuleApplications := 3000 })
+@[aesop safe apply (rule_sets := [NoClose])]
+theorem manageWatchersTail_presC (S : SpecCoreC I) (rec : Rec) (hrec : ∀ t, Pres I (rec t)) (need : Bool) (wt : Waiter) : Pres I (manageWatchersTail rec need wt) := by
+  have L := S.toLeafC
+  have hnt : Pres I (newTop [TopCb.watch]) := S.newTopNR _ (by simp)
+  unfold manageWatchersTail; aesop (add safe apply hrec, safe apply hnt) (rule_sets := [NoClose]) (config := { terminal := true, useDefaultSimpSet := false, useSimpAll := false, maxRuleApplications := 3000 })
 @[aesop safe apply (rule_sets := [NoClose])]
 theorem runCall_presC (S : SpecCoreC I) (rec : Rec) (hrec : ∀ t, Pres I (rec t)) (c : Call) (wt : Waiter) : Pres I (runCall rec c wt) := by
   have L := S.toLeafC
